@@ -312,7 +312,10 @@ def _shard(seed, n, known, cli):
     from vlib import gen_cb
 
     res = Result()
-    core.hyp_search(gen_cb.codebases(), lambda c, r: check_case(c, r, cli=cli), n, seed, res, known_sigs=known, shrink=not cli)
+    from hypothesis import strategies as st
+
+    strat = st.one_of(gen_cb.codebases(), gen_cb.codebases(min_platforms=2, header_bias=True), gen_cb.codebases(min_platforms=3, max_files=12))
+    core.hyp_search(strat, lambda c, r: check_case(c, r, cli=cli), n, seed, res, known_sigs=known, shrink=not cli)
     return res
 
 
